@@ -43,6 +43,33 @@ func (ser *MultiEpoch) getGsfaReadersInEpochDescendingOrder() ([]*gsfa.GsfaReade
 	return gsfaReaders, epochNums
 }
 
+// getGsfaReadersWithTheirEpochs is getGsfaReadersInEpochDescendingOrder plus the Epoch object each reader
+// belongs to. The locations an address index yields are offsets into the CAR of THAT object: if the epoch
+// is replaced while the request runs, reading them from whatever multi.GetEpoch returns by then yields
+// other transactions (or garbage).
+func (ser *MultiEpoch) getGsfaReadersWithTheirEpochs() ([]*gsfa.GsfaReader, map[uint64]*Epoch) {
+	ser.mu.RLock()
+	defer ser.mu.RUnlock()
+
+	epochs := make([]*Epoch, 0, len(ser.epochs))
+	for _, epoch := range ser.epochs {
+		epochs = append(epochs, epoch)
+	}
+	sort.Slice(epochs, func(i, j int) bool {
+		return epochs[i].epoch > epochs[j].epoch
+	})
+	gsfaReaders := make([]*gsfa.GsfaReader, 0, len(epochs))
+	owners := make(map[uint64]*Epoch, len(epochs))
+	for _, epoch := range epochs {
+		if epoch.gsfaReader != nil {
+			epoch.gsfaReader.SetEpoch(epoch.Epoch())
+			gsfaReaders = append(gsfaReaders, epoch.gsfaReader)
+			owners[epoch.Epoch()] = epoch
+		}
+	}
+	return gsfaReaders, owners
+}
+
 // getGsfaReadersInEpochDescendingOrder returns a list of gsfa readers in epoch order (from most recent to oldest).
 func (ser *MultiEpoch) getGsfaReadersInEpochDescendingOrderForSlotRange(ctx context.Context, startSlot, endSlot uint64) (*gsfa.GsfaReaderMultiepoch, []uint64) {
 	ser.mu.RLock()
@@ -114,7 +141,13 @@ func (multi *MultiEpoch) handleGetSignaturesForAddress(ctx context.Context, conn
 	pk := params.Address
 	limit := params.Limit
 
-	gsfaIndexes, _ := multi.getGsfaReadersInEpochDescendingOrder()
+	gsfaIndexes, epochOfReader := multi.getGsfaReadersWithTheirEpochs()
+	getEpochOfReader := func(epochNum uint64) (*Epoch, error) {
+		if ep, ok := epochOfReader[epochNum]; ok {
+			return ep, nil
+		}
+		return nil, fmt.Errorf("epoch %d not found", epochNum)
+	}
 	if len(gsfaIndexes) == 0 {
 		return &jsonrpc2.Error{
 			Code:    jsonrpc2.CodeInternalError,
@@ -163,7 +196,7 @@ func (multi *MultiEpoch) handleGetSignaturesForAddress(ctx context.Context, conn
 		params.Before,
 		params.Until,
 		func(epochNum uint64, oas linkedlog.OffsetAndSizeAndSlot) (*ipldbindcode.Transaction, error) {
-			epoch, err := multi.GetEpoch(epochNum)
+			epoch, err := getEpochOfReader(epochNum)
 			if err != nil {
 				return nil, fmt.Errorf("failed to get epoch %d: %w", epochNum, err)
 			}
@@ -209,7 +242,7 @@ func (multi *MultiEpoch) handleGetSignaturesForAddress(ctx context.Context, conn
 		if len(txs) == 0 {
 			continue
 		}
-		ser, err := multi.GetEpoch(epochNum)
+		ser, err := getEpochOfReader(epochNum)
 		if err != nil {
 			continue
 		}
@@ -247,7 +280,7 @@ func (multi *MultiEpoch) handleGetSignaturesForAddress(ctx context.Context, conn
 	})
 	for _, ei := range foundEpochs {
 		epoch := ei
-		ser, err := multi.GetEpoch(epoch)
+		ser, err := getEpochOfReader(epoch)
 		if err != nil {
 			return &jsonrpc2.Error{
 				Code:    jsonrpc2.CodeInternalError,
